@@ -208,6 +208,79 @@ pub fn run(ctx: &Ctx) -> i32 {
         }
         res
     });
+    // ---- chunk payloads beyond 64 KiB: interrupts / short reads deep inside one payload ---------------------
+    let nbig = ctx.tier.pick(6u64, 60u64);
+    let big = run_stage(ctx, "big-payload", nbig, |i| {
+        use crate::model::*;
+        let mut rng = Rng::derive(ctx.seed, "C14-big", i);
+        let fmt = *rng.pick(&[Fmt::Rgba, Fmt::Gray, Fmt::Indexed]);
+        let mut sp = Sprite::blank(8, 8, fmt, 1);
+        if fmt == Fmt::Indexed {
+            let mut pal = std::collections::BTreeMap::new();
+            for k in 0..256u32 {
+                pal.insert(k, PalEntryM { rgba: [k as u8, 1, 2, 255], name: None });
+            }
+            sp.palette = Some(pal);
+        }
+        sp.layers.push(LayerM::image("big"));
+        // payload sizes around and well beyond 64 KiB
+        let target = *rng.pick(&[65_537usize, 70_000, 83_200, 131_073, 200_000]);
+        let w = 200u16;
+        let h = ((target / fmt.bpp()) / w as usize + 1) as u16;
+        let px = gen::gen_pixels(&mut rng, &sp, w as usize * h as usize);
+        sp.cels.insert((0, 0), CelM { x: -3, y: -2, opacity: 255, content: CelContentM::Image { w, h, pixels: px }, ud: None });
+        let mut v = Variation::none();
+        v.default_storage = if i % 2 == 0 { Storage::Raw } else { Storage::Stored(65535) };
+        let (bytes, _map) = encode(&compile_with(&sp, &mut rng, &v, &crate::program::PaletteProgram::Auto));
+        let mut res = CaseResult::ok(crate::rng::hash_bytes(&bytes), 0, "big-payload-file");
+        let o = ObsOpts::full();
+        let base = match digest_of(&bytes[..], &o) {
+            Ok(d) => d,
+            Err(e) => {
+                res.violations.push(Violation::new(format!("load-failed|big-payload|{}", e), "generated big-payload file failed to load").with_input(&bytes));
+                return res;
+            }
+        };
+        for chunk in [0usize, 8192, 1000, 65_536, 4099] {
+            // how many read calls does this delivery take?
+            let mut probe = Interrupting::new(&bytes, vec![], chunk);
+            let _ = AsepriteFile::read(&mut probe);
+            let calls = probe.call;
+            res.count("big_payload_read_calls", calls);
+            for c in 0..calls {
+                let mut rd = Interrupting::new(&bytes, vec![c], chunk);
+                let r = digest_of(&mut rd, &o);
+                res.leaves += 1;
+                match r {
+                    Ok(d) if d == base => {}
+                    Ok(_) => res.violations.push(Violation::new("delivery-changes-result|interrupt-big-payload", format!("Interrupted before read call {} (max chunk {}) changed the observation of a file with a {}-byte chunk payload", c, chunk, w as usize * h as usize * fmt.bpp())).with_input(&bytes)),
+                    Err(e) => res.violations.push(Violation::new(format!("delivery-changes-result|interrupt-big-payload|{}", e), format!("Interrupted before read call {} (max chunk {}) made loading fail: {}", c, chunk, e)).with_input(&bytes).with_extra(json!({"call": c, "max_chunk": chunk}))),
+                }
+            }
+            res.count("big_payload_interrupt_placements", calls);
+        }
+        for k in [1usize, 4096, 8191, 65_535, 65_536, 65_537] {
+            let r = digest_of(Chunked::new(&bytes, vec![k]), &o);
+            res.leaves += 1;
+            if r != Ok(base) {
+                res.violations.push(Violation::new("delivery-changes-result|fixed-big-payload", format!("chunk size {} changed the result for a big payload: {:?}", k, r.err())).with_input(&bytes));
+            }
+        }
+        let step = 997;
+        let mut at = 0;
+        while at < bytes.len() {
+            if let Some(v) = check_fault(&bytes, at, KINDS[(at / step) % 8], at as u64 ^ 0xB16, if at % 2 == 0 { 0 } else { 4096 }) {
+                res.violations.push(v);
+            }
+            res.leaves += 1;
+            at += step;
+        }
+        if i == 0 {
+            res.sample = Some(json!({"big_payload_file_len": bytes.len(), "payload_bytes": w as usize * h as usize * fmt.bpp(), "format": fmt.name()}));
+        }
+        res
+    });
+    sum.merge(big);
     // corpus files through the coarse schedules
     let corpus = crate::corpus::list(ctx);
     let cs = run_stage(ctx, "corpus", corpus.len() as u64, |i| {
@@ -233,6 +306,22 @@ pub fn run(ctx: &Ctx) -> i32 {
         match AsepriteFile::read_file(&path) {
             Ok(a) if observe(&a, &o).digest() == base => {}
             _ => res.violations.push(Violation::new("delivery-changes-result|corpus-read_file", format!("{} via read_file differs from the in-memory reader", name))),
+        }
+        // transient interrupts at sampled read calls (the blend files have 262 KB chunk payloads)
+        {
+            let mut probe = Interrupting::new(bytes, vec![], 8192);
+            let _ = AsepriteFile::read(&mut probe);
+            let calls = probe.call.max(1);
+            let stride = (calls / 48).max(1);
+            let mut c = (ctx.seed % stride.max(1)) as u64;
+            while c < calls {
+                res.leaves += 1;
+                match digest_of(Interrupting::new(bytes, vec![c], 8192), &o) {
+                    Ok(d) if d == base => {}
+                    other => res.violations.push(Violation::new("delivery-changes-result|corpus-interrupt", format!("{}: Interrupted before read call {} of {}: {:?}", name, c, calls, other.err())).with_extra(json!({"file": name, "call": c}))),
+                }
+                c += stride;
+            }
         }
         // hard faults on a coarse grid
         let step = (bytes.len() / 200).max(1);
